@@ -35,7 +35,7 @@ REASON = {
     'C05-time-seconds-beyond-year-9999': 'patch no longer applies: fix 1e66263 replaced the code it changed (the Time scalar now builds the value with time.Unix and refuses years outside 0..9999, which is what this change removed); a change that drops the new range check is reported by C05 (the model has the range as flt_secs_ok / rfc_secs)',
     'C02-type-bound-before-strategy-dispatch': 'needs one GraphQL type whose Go values use two resolving strategies in one request (a map for one value, a struct for the next); a world of the C02 zoo uses one strategy per type',
     'C07-reflect-arg-error-at-schema-position': 'needs a reflected method whose argument fails to convert after validation accepted the request; the harness resolvers take their arguments through the Resolver interface or through methods whose parameter types match the schema',
-    'C14-schema-installed-by-addtypes': 'the AddTypes entry point (types built in Go, no SDL) is not driven by the harness; the histories of C14 load SDL text',
+    'C14-schema-installed-by-addtypes': 'made harmless by fix 8030e46: AddTypes now saves and restores the schema, where this change installs it',
     'C16-parsefs-joins-with-space': 'the ParseFS entry point (several files joined) is not driven by the harness; the arrangements of C16 are Parse calls',
     'C13-input-field-refs-skipped-when-resolved': 'reported, but only as a broken correspondence on a history of loads; no single load shows it',
     'C09-subscription-keeps-raw-vars-r9': 'the directive sits in the payload of a subscription: the histories of C19 subscribe with a defaulted @include variable and report it',
